@@ -361,6 +361,12 @@ class Inotify:
                                     self._path_for_wd[moved_wd] = _move_to_path
                     src_path = os.path.join(wd_path, name)
                     inotify_event = InotifyEvent(wd, mask, cookie, name, src_path)
+                    if self.is_recursive and inotify_event.is_directory:
+                        # A directory that arrives by rename(2) - from outside the watched tree, or
+                        # renamed before the watch for it (or for a sub-directory) could be added -
+                        # may not be watched yet. Adding a watch that already exists is a no-op for
+                        # the kernel and only refreshes the path book-keeping.
+                        self._add_tree_watches(src_path)
 
                 if inotify_event.is_ignored:
                     # Clean up book-keeping for deleted watches.
@@ -414,6 +420,20 @@ class Inotify:
                     if not self._follow_symlink and os.path.islink(full_path):
                         continue
                     self._add_watch(full_path, mask)
+
+    def _add_tree_watches(self, path: bytes) -> None:
+        """Adds watches for the given directory and all its sub-directories,
+        ignoring those that vanish meanwhile.
+        """
+        with contextlib.suppress(OSError):
+            self._add_watch(path, self._event_mask)
+        for root, dirnames, _ in os.walk(path, followlinks=self._follow_symlink):
+            for dirname in dirnames:
+                full_path = os.path.join(root, dirname)
+                if not self._follow_symlink and os.path.islink(full_path):
+                    continue
+                with contextlib.suppress(OSError):
+                    self._add_watch(full_path, self._event_mask)
 
     def _add_watch(self, path: bytes, mask: int) -> int:
         """Adds a watch for the given path to monitor events specified by the
